@@ -92,6 +92,27 @@ func init() {
 		typeIDs[t] = id
 		idTypes[id] = t
 	}
+	// the driver renders type names by this convention (ErrArgumentUnsatisfied's message is compared line by line)
+	for id, t := range poolTypes {
+		want := ""
+		switch {
+		case id <= 9:
+			want = fmt.Sprintf("main.K%d", id)
+		case id >= tyI0 && id <= tyI3:
+			want = fmt.Sprintf("main.I%d", id-tyI0)
+		case id == tyE0:
+			want = "*main.E0"
+		case id == tyError:
+			want = "error"
+		case id == tyL0:
+			want = "main.L0"
+		case id == tyLU:
+			want = "[]int"
+		}
+		if t.String() != want {
+			panic(fmt.Sprintf("type %d prints as %s, the driver expects %s", id, t.String(), want))
+		}
+	}
 }
 
 // tyID returns the id of a type, registering unknown types with fresh ids >= 2000.
